@@ -108,7 +108,7 @@ def run_case(case):
     if fam == 'cast_strings' and case['idx'] % 3 == 0:
         return run_typed_source_strings(case, rng, d, counters, cov, viol)
     ncols = rng.randint(1, 6)
-    header = rng.sample(['alpha', 'b', 'C', 'delta', 'e1', 'Ünï', 'g h'], ncols)
+    header = rng.sample(['alpha', 'b', 'C', 'delta', 'e1', 'Ünï', 'g h', 'share %', 'Rate%s'], ncols)
     hclass = 'unique'
     dedup_fmt = None
     if fam == 'dup_headers' and ncols >= 2:
